@@ -1,11 +1,41 @@
+# C06 — each bridged Ethereum event is credited at most once, as agreed
 LEAN_MODULES = ["Sif.Props.C06"]
 EXTRACT = [{"group": "bridge", "passes": ["bridgefacts"]}]
 FAMILIES = [
     {"name": "bridge_credit", "family": "bridge_credit", "group": "bridge", "driver": "drv_bridge",
-     "n_quick": 150, "n_thorough": 1500, "seeds_thorough": 3},
+     "n_quick": 300, "n_thorough": 2000, "seeds_thorough": 3},
 ]
-RULE = ""
-TRUSTED_BASE = []
-ASSUMPTIONS = []
-UNPROVED = []
-MANIFEST = {"text": "", "note": "", "technique": "Lean 4 proof + differential correspondence (model vs real Go)", "design_ref": "4/C06"}
+RULE = ("bridge_credit: L1 claim histories on the real keepers (ValidateBasic + ethbridge.NewHandler on a cached context written only on success): "
+        "conflicting contents, late and duplicate claims, claims after finalisation, zero / negative / 2^256-1 amounts, invalid denominations, "
+        "unspecified claim type, receivers that are module (blocked) accounts, other spellings of the Ethereum sender (another prophecy id), "
+        "interleaved with whitelist edits, staking changes, locks and burns; 4 repetitions per history. After every claim message the balances and "
+        "supply before/after are judged by Spec.C06.creditStep; a per-prophecy ledger of observed credits by Spec.C06.ledgerOK. "
+        "non-trivial = distinct accepted message, or a chk line around a balance change")
+TRUSTED_BASE = [
+    "Lean 4.33.0 kernel; axioms propext, Classical.choice, Quot.sound (audited per theorem on every run)",
+    "hand-written Lean model of x/oracle, x/ethbridge and the used part of x/bank (mint / send / blocked recipients / 256-bit overflow panic / "
+    "zero coins dropped / denomination regex), tied by regenerated facts (the guard of the only ProcessSuccessfulClaim call, PeggedCoinPrefix) and "
+    "by differential execution against the real keepers",
+    "baseapp's transaction wrapper (cache written only on success, panics recovered) — reproduced by the harness with CacheContext + recover",
+    "json.Marshal/Unmarshal of OracleClaimContent round-trips; staking as environment; Go harness, line protocol, drv_bridge parser",
+]
+ASSUMPTIONS = [
+    "C05's assumptions for the statements that go through the tally (well-formed tallies, distinct validator addresses)",
+    "prophecyId_injective_fixed_chain: Ethereum senders of equal length (the 42-character form)",
+]
+UNPROVED = [
+    "across chain ids the prophecy id is not injective (prophecyId_not_injective_across_chains, observation O1): two events can share a tally, "
+    "which can suppress a credit but not duplicate one",
+    "the L2 path (signed transactions through baseapp) is not exercised here; the wrapper is the harness's",
+]
+MANIFEST = {
+    "text": "Lean 4 theorems over a model of CreateEthBridgeClaim / ProcessSuccessfulClaim on top of the oracle model: coins move iff the message was "
+            "accepted and turned its prophecy SUCCESS in that very step, then exactly the credit of the final claim (receiver, amount, 'c'+symbol for a lock, "
+            "symbol for a burn) and nothing else; over any history the credits for one prophecy id are none or exactly that one; failed or panicking claims "
+            "change nothing; a lock credit puts the token in the peggy list for good (not lockable, burnable); prophecy ids are injective for a fixed chain id. "
+            "Tied by regenerated facts and differential execution of claim histories on the real keepers with the predicates evaluated on the implementation's balances.",
+    "note": "Holds on the tree repaired for F2. Trusted: kernel, hand-written model + correspondence, x/bank semantics as modelled, JSON encoding, "
+            "the harness's transaction wrapper standing in for baseapp.",
+    "technique": "Lean 4 proof + regenerated facts + differential correspondence (model vs real Go keepers)",
+    "design_ref": "4/C06",
+}
